@@ -1240,7 +1240,7 @@ theorem apiRegSrc_triple {R : St → Prop} (hR : Stable R) (m : ModId) (ok : Boo
     · intro _; exact Triple.retR _ (fun _ h => h.1)
     · intro _
       refine Triple.bind Triple.get fun s => ?_
-      have hv := addSrc_view s m (forceOneshot (dupSrc x))
+      have hv := addSrc_view s m (forceHigh (forceOneshot (dupSrc x)))
       refine Triple.bind (Q := fun _ => R) ?_ fun _ => Triple.retR _ (fun _ h => h)
       refine Triple.set _ fun st hI hp => ?_
       obtain ⟨he, hr, _⟩ := hp
